@@ -549,6 +549,13 @@ pub fn preprocess_str<T: AsRef<Path>, U: AsRef<Path>, V: BuildHasher>(
                 let range = Range::new(locate.offset, locate.offset + locate.len);
                 ret.push(locate.str(&s), Some((path.as_ref(), range)));
             }
+            NodeEvent::Enter(RefNode::Comment(x)) if strip_comments => {
+                // A stripped comment still separates the tokens around it (IEEE 1800-2017 5.4).
+                let locate: Locate = x.try_into().unwrap();
+                let sep = if locate.str(&s).ends_with('\n') { "\n" } else { " " };
+                let range = Range::new(locate.offset, locate.offset + sep.len());
+                ret.push(sep, Some((path.as_ref(), range)));
+            }
             NodeEvent::Enter(RefNode::IfndefDirective(x)) => {
                 let (_, ref keyword, ref ifid, ref ifbody, ref elsif, ref elsebody, _, _) = x.nodes;
                 skip_nodes.push(keyword.into());
